@@ -49,7 +49,8 @@ def comp_family(seed, n, maxlen=3, budget=2500):
 def group_comp_family(seed, n, budget):
     rnd = random.Random(seed)
     fam = D.alt_family(seed, n // 2, maxlen=3, budget=budget) + D.adj_family(seed + 1, n // 4, maxlen=3, budget=budget) + \
-        D.acmd_family(seed + 2, n - n // 2 - n // 4, maxlen=3, budget=budget)
+        D.acmd_family(seed + 2, n - n // 2 - n // 4, maxlen=3, budget=budget) + \
+        D.alt_pos_family(seed + 3, max(4, n // 4), maxlen=3, budget=budget)     # a positional alternative next to named ones
     # a finished block of named members (the last one a completed argument) followed by the beginning of an outer name
     for i, wrap in enumerate(["many", "one", "opt"]):
         g = D.adjf("g0", wrap, D.rf("h0", "one", "--rect"), D.ar("w", "one", "int", "--ww"), D.ar("h", "one", "str", "--hh"))
